@@ -33,7 +33,7 @@ ASSUMPTIONS = [
     'an integer literal where the element type says float is labelled free '
     '(the statement does not say whether 1 is a wrong-typed 1.0)',
 ]
-REQUIRED = ['accept_json', 'accept_hdf5', 'accept_cli', 'json_mutants',
+REQUIRED = ['accept_json', 'accept_hdf5', 'accept_after_load', 'accept_cli', 'json_mutants',
             'hdf5_mutants', 'pair_mutants', 'must_reject_checked',
             'accepted_and_loaded']
 
@@ -405,6 +405,34 @@ def run_case(ctx, index):
                                     (rr.exit_code, rr.output[-300:], desc))
                 ctx.count('accept_cli')
             ctx.case(desc, True)
+        # files written from tables whose history includes a load
+        hp2 = ctx.path('c15_%d_b.biom' % index)
+        jp2 = ctx.path('c15_%d_b.json' % index)
+        try:
+            tj = biom.load_table(jp)
+            with h5py.File(hp2, 'w') as f:
+                tj.to_hdf5(f, gby)
+            th = biom.load_table(hp)
+            with open(jp2, 'w', encoding='utf-8') as f:
+                f.write(th.to_json(gby))
+            th2 = biom.load_table(hp)
+            hp3 = ctx.path('c15_%d_c.biom' % index)
+            biom.save_table(th2, hp3)
+            for what, p in (('json->hdf5', hp2), ('hdf5->json', jp2),
+                            ('hdf5->hdf5', hp3)):
+                v, detail = validate(ctx, p)
+                desc = dict(base, fmt=what, mutation=None)
+                if v != 'valid':
+                    raise Violation('C15/writer-output-rejected/' + what,
+                                    'validator says %s (%s) for a file '
+                                    'written from a loaded table; case=%r' %
+                                    (v, detail, desc))
+                ctx.count('accept_after_load')
+                ctx.case(desc, True)
+        finally:
+            for p in (hp2, jp2, ctx.path('c15_%d_c.biom' % index)):
+                if os.path.exists(p):
+                    os.remove(p)
         doc0 = json.loads(text)
         check_loadable(ctx, jp, doc0, dict(base, fmt='json', mutation=None))
         # -------------------------------------------------- JSON mutants
